@@ -504,11 +504,14 @@ def none_seeded_fold(loop):
     others = {k2: v for k2, v in assigns.items() if k2 != best}
     idx = best if kind == "index" else None
     ref = best if kind == "ref" else None
+    value_var = None
     for k2, v in others.items():
         if kind == "ref" and j is not None and v == j and idx is None:
             idx = k2
         elif kind == "index" and v in names and ref is None:
             ref = k2
+        elif value_var is None and any(v.startswith(nb + ".") for nb in names):
+            value_var = (k2, v)          # the winner's key carried in a local next to the winner: max_b = <cell>.get_b_value()
         else:
             return None
     incs = {inc} | ({ref} if ref else set()) | ({"%s[%s]" % (layer, idx)} if idx else set())
@@ -520,6 +523,13 @@ def none_seeded_fold(loop):
             for nb in names:
                 if a.startswith(ia + ".") and b.startswith(nb + ".") and a[len(ia):] == b[len(nb):]:
                     getter = a[len(ia) + 1:]
+                    o = op if not flip else {ast.LtE: ast.GtE, ast.Lt: ast.Gt, ast.GtE: ast.LtE, ast.Gt: ast.Lt}.get(op)
+                    direction = "max" if o in (ast.LtE, ast.Lt) else ("min" if o in (ast.GtE, ast.Gt) else None)
+        if getter is None and value_var is not None and a == value_var[0]:
+            # the incumbent's key is read from the companion local: value_var OP key(<cell>), with value_var set to that same key
+            for nb in names:
+                if b.startswith(nb + ".") and value_var[1] == b:
+                    getter = b[len(nb) + 1:]
                     o = op if not flip else {ast.LtE: ast.GtE, ast.Lt: ast.Gt, ast.GtE: ast.LtE, ast.Gt: ast.Lt}.get(op)
                     direction = "max" if o in (ast.LtE, ast.Lt) else ("min" if o in (ast.GtE, ast.Gt) else None)
     if getter is None or direction is None:
@@ -535,7 +545,7 @@ def none_seeded_fold(loop):
         pre_src.append(sx)
     node = sorted(names, key=len)[0]
     rec = dict(idx=idx, j=j, layer=layer, node=node, getter=getter, direction=direction, pre=pre_src, loop=loop, cell_names=names,
-               seedvars=[v for v in (ref, idx) if v])
+               seedvars=[v for v in (ref, idx) if v], value_var=value_var[0] if value_var else None)
     if kind == "ref" or ref:
         rec["sel"] = ref
     return rec
@@ -575,6 +585,17 @@ def check_stosoo(ctx):
     ra = atoms_at(g, g.node_of(rets[0]))
     ea = atoms_at(g, g.node_of(sites[0]))
     bm = ("<=", "self.b_max", "%s.get_b_value()" % sel)
+    vv = r.get("value_var")
+    if vv:
+        # the winner's b-value may be read from the local that was set together with the winner (no store to it outside the fold)
+        vstores = [x for x in ast.walk(pull) if isinstance(x, ast.Name) and x.id == vv and isinstance(x.ctx, ast.Store)]
+        inside = {id(x) for x in ast.walk(r["loop"])}
+        seeds_v = [x for x in vstores if id(x) not in inside]
+        if all(isinstance(model.up(x), ast.Assign) and norm_src(model.up(x).value) in ("None", "-np.inf") for x in seeds_v):
+            if ("<=", "self.b_max", vv) in ra:
+                ra = list(ra) + [bm]
+            if ("<=", "self.b_max", vv) in ea:
+                ea = list(ea) + [bm]
     okh = norm_src(rets[0].value) == "%s.get_cpoint()" % sel and ("<", "%s.get_visited_times()" % sel, "self.k") in ra and bm in ra
     ctx.ob("R08-ONCE", okh, c.file, q, norm_src(rets[0]), "the max-b leaf is handed out only while evaluated fewer than k times (and b >= b_max)" if okh
            else "guards %s" % ra, rets[0].lineno)
@@ -582,7 +603,7 @@ def check_stosoo(ctx):
     st = model.enclosing_stmt(sites[0])
     blk2 = enclosing_block(model, st)
     after = [norm_src(s) for s in blk2[blk2.index(st) + 1:]]
-    oke = oke and after == ["self.b_max = %s.get_b_value()" % sel]
+    oke = oke and after in (["self.b_max = %s.get_b_value()" % sel], ["self.b_max = %s" % vv] if vv else [])
     ctx.ob("R08-SWEEP", oke, c.file, q, "expanded when evaluated k times and b >= b_max; then b_max <- its b", "guards %s; then %s" % (ea, after), sites[0].lineno)
     bmx = [norm_src(s) for s in ast.walk(pull) if isinstance(s, ast.Assign) and norm_src(s.targets[0]) == "self.b_max"]
     okb = len(bmx) == 2 and "self.b_max = -np.inf" in bmx and any(norm_src(s) == "self.b_max = -np.inf" for s in strip_doc(pull.body))
